@@ -473,6 +473,79 @@ func runC24(c *Ctx) {
 		c.Check(okScan, r6, touch.Name()+":scan-skips-new-element", touch.Decl.Pos(), "the victim scan stops before the element just inserted")
 	}
 	c.Floor(r6, 2)
+
+	// 7. open-installed-once: a descriptor is stored in SharedFile.file only in the critical section in which file was
+	// seen to be nil. From every acquisition of the mutex, the storing assignment is reachable only across the
+	// `file == nil` edge without leaving the critical section in between; otherwise two concurrent Acquires both open
+	// and the second assignment orphans the first descriptor (never closed, invisible to the pool).
+	const r7 = "open-installed-once"
+	muF := fieldOf(sft, "mu")
+	nStores := 0
+	for _, fi := range p.FuncsIn(sfShort) {
+		if recvTypeName(fi.Obj) != sft || fi.Decl.Body == nil || p.isTestFile(fi.Decl.Pos()) {
+			continue
+		}
+		f := p.FlowOf(fi)
+		isMuCall := func(n ast.Node, name string) bool {
+			if _, isDefer := n.(*ast.DeferStmt); isDefer {
+				return false
+			}
+			return nodeHasCall(n, false, func(call *ast.CallExpr) bool {
+				sel, ok := unparen(call.Fun).(*ast.SelectorExpr)
+				if !ok || sel.Sel.Name != name {
+					return false
+				}
+				inner, ok := unparen(sel.X).(*ast.SelectorExpr)
+				return ok && muF != nil && info.Uses[inner.Sel] == types.Object(muF)
+			}) != nil
+		}
+		stores := f.Locs(func(n ast.Node) bool {
+			as, ok := n.(*ast.AssignStmt)
+			if !ok {
+				return false
+			}
+			for i, l := range as.Lhs {
+				if sel, ok := unparen(l).(*ast.SelectorExpr); ok && info.Uses[sel.Sel] == types.Object(fileF) {
+					if len(as.Rhs) == len(as.Lhs) && isNil(info, as.Rhs[i]) {
+						continue // clearing the field
+					}
+					return true
+				}
+			}
+			return false
+		})
+		if len(stores) == 0 {
+			continue
+		}
+		locks := f.Locs(func(n ast.Node) bool { return isMuCall(n, "Lock") })
+		for _, st := range stores {
+			nStores++
+			c.Analysed(fi)
+			var starts []Loc
+			for _, l := range locks {
+				starts = append(starts, After(l))
+			}
+			fileNil := FactGuard(func(fl *Flow, fact Fact) bool {
+				be, ok := unparen(fact.Atom).(*ast.BinaryExpr)
+				if !ok {
+					return false
+				}
+				for _, pair := range [][2]ast.Expr{{be.X, be.Y}, {be.Y, be.X}} {
+					if sel, ok := unparen(pair[0]).(*ast.SelectorExpr); ok && fl.Info.Uses[sel.Sel] == types.Object(fileF) && isNil(fl.Info, pair[1]) {
+						return (be.Op == token.EQL && fact.Truth) || (be.Op == token.NEQ && !fact.Truth)
+					}
+				}
+				return false
+			})
+			h := f.Search(SearchOpts{Starts: starts,
+				Sink:      func(n ast.Node) bool { return n == st.B.Nodes[st.Idx] },
+				Barrier:   func(n ast.Node) bool { return isMuCall(n, "Unlock") },
+				BlockEdge: func(b *cfg.Block, i int) bool { return fileNil(f, b, i) }})
+			c.Check(h == nil && len(locks) > 0, r7, fi.Name()+"->file", st.B.Nodes[st.Idx].Pos(), orStr(ifStr(h != nil, "the descriptor is stored in a critical section that did not see file == nil: a concurrent Acquire may already have installed one, which is then orphaned and never closed"+hitLines(f, h)),
+				"stored only in the critical section that saw file == nil"))
+		}
+	}
+	c.Check(nStores >= 1, r7, sfShort+".SharedFile:stores", 0, itoa(nStores)+" descriptor-installing assignments examined")
 }
 
 func ifStr(b bool, s string) string {
